@@ -402,21 +402,19 @@ def stepReg (st : DState) (args : List String) : Option (DState × String) :=
     -- `register_converter`: does nothing if the converter is already registered
     match clsId? r cls, st.convNames.lookup name with
     | some c, some tid =>
-      let old := q.clsConverters c
-      if old.contains tid then some (st, "ok")
-      else
-        let convs := (q.converters.filter fun p => p.1 != c) ++ [(c, old ++ [tid])]
-        some ({ st with q := { q with converters := convs } }, "ok")
+      let convs := (q.converters.filter fun p => p.1 != c) ++
+        [(c, registerGeneric (q.clsConverters c) tid)]
+      some ({ st with q := { q with converters := convs } }, "ok")
     | _, _ => some (st, bad)
   | ["conv_unreg", cls, name] =>
     -- `remove_converter`: `list.remove`, ValueError if not present
     match clsId? r cls, st.convNames.lookup name with
     | some c, some tid =>
-      let old := q.clsConverters c
-      if old.contains tid then
-        let convs := (q.converters.filter fun p => p.1 != c) ++ [(c, old.erase tid)]
+      match removeGeneric (q.clsConverters c) tid with
+      | some l =>
+        let convs := (q.converters.filter fun p => p.1 != c) ++ [(c, l)]
         some ({ st with q := { q with converters := convs } }, "ok")
-      else some (st, "err ValueError")
+      | none => some (st, "err ValueError")
     | _, _ => some (st, bad)
   | ["conv_list", cls] =>
     -- `registered_converters()`: most recently registered first
@@ -940,7 +938,7 @@ def stepMoney (st : DState) (args : List String) : Option (DState × String) :=
     | some i =>
       match op with
       | "reg" | "enter" =>
-        some ({ st with q := { q with mstack := q.mstack ++ [i] } }, "ok")
+        some ({ st with q := { q with mstack := stackPush q.mstack i } }, "ok")
       | _ =>   -- "unreg" | "exit" | "exit_exc"
         let (stack', res) := stackRemove q.mstack i
         some ({ st with q := { q with mstack := stack' } },
